@@ -1,24 +1,97 @@
 """C31 — leader notifications are consistent."""
-from dvlib import cluster
+import json
+from dvlib import core, flow, cluster
+from dvlib.core import Broken
+from props import notify_common
 
 ID = 'C31'
-PROPS_FILE = None
-CONE = []
+PROPS_FILE = 'theories/props/Properties_C31.v'
+CONE = ['theories/Election.v', 'theories/Notify.v', 'theories/proofs/C02.v', 'theories/proofs/C01.v', 'theories/proofs/C31.v']
 ORACLES = [cluster.notifications]
+# finding candidate: a single-voter leader whose noop flush (LogFlushed of the IO thread) is queued when an AppendEntries of
+# a newer term deposes it: handle_log_flushed commits regardless of the term (single-voter path), NoopCommitted{old term}
+# is queued behind BecomeFollower(Some new leader) and announces (self, old term) after (new leader, new term).
+# Needs label 14 of the cluster probe (flush without processing); without it the schedule is harmless.
+SINGLE_VOTER_RACE = [1, 2, [[12, 1, 0, 0, 0], [14, 1], [11, 2, 1, 5, 0, 0, [], 0], [9, 1]]]
+
+def recorded_terms_monotone(case, out):
+    for i, nd in enumerate(out[-1][0]):
+        seq = nd[5]
+        for a, b in zip(seq, seq[1:]):
+            if b[1] < a[1]:
+                return ('single-voter-noop-notified-after-deposition' if case[0] == 1 else 'notified-term-decreased',
+                        'node %d was notified %s after %s' % (i + 1, b, a))
+    return None
+
+QUICK = (200, 40)
+THOROUGH = (1500, 70)
 
 def check(run):
-    run.level = 'exploration'
-    run.cov['trusted_base'] += ["cluster simulator (real Raft objects; every distinct value of the leader-change watch is recorded between two internal events through the hook Raft::verif_process_one_internal)"]
-    run.assumptions += ["notifications are observed at the watch channel registered with Raft::register_leader_change_listener (what LeaderNotifier / EmbeddedEngine expose)"]
-    return cluster.check_cluster_property(run, PROPS_FILE, CONE, ORACLES, kills=False, node_level=False, quick=(200, 40))
+    run.cov['trusted_base'] += [
+        "hand-written notification model DE.Notify (the notify_leader_change call sites of Raft::handle_internal_event and the senders of BecomeFollower / BecomeCandidate / LeaderDiscovered / NoopCommitted in the role states) on top of the node model DE.Election, tied to the code by the node-level correspondence of the `cluster` probe (hooks Raft::verif_*)",
+        "cluster simulator (real Raft objects; every distinct value of the leader-change watch is recorded between two internal events through the hook Raft::verif_process_one_internal)",
+        "the cluster-level corollary takes the history hypotheses (leaders = nodes that turned Leader; every accepted AppendEntries of term t was sent by a leader of t; vote once; majority-backed leaders) as premises: they are C01/C02 obligations and transport facts, validated on the simulated executions, not derived from a model of the whole cluster",
+    ]
+    run.assumptions += ["notifications are observed at the watch channel registered with Raft::register_leader_change_listener (what LeaderNotifier / EmbeddedEngine expose)",
+                        "no kill-restart (a kill loses the hard state, C02 known finding: the notified terms can then decrease - machine-checked witness kill_notified_term_decreases)",
+                        "NoopCommitted is processed while the node still leads the term (the event is queued by the leader itself; the model treats answer + commit + notification as one step)"]
+    thorough_t = run.tier == 'thorough'
+    broken = flow.proof_step(run, PROPS_FILE, CONE)
+    violations = []
+    try:
+        core.harness_build()
+        # node level: the notification model against one real node
+        notify_common.notify_correspondence(run, 600 if thorough_t else 160, broken, violations)
+        # directed: single-voter leader deposed while its noop flush is in flight
+        # (repeated: when the log's own IO thread flushes before label 14 the noop commits early and the run is harmless)
+        hits = 0
+        for o1 in core.probe('cluster', [SINGLE_VOTER_RACE] * 8):
+            v1 = None if isinstance(o1, str) else recorded_terms_monotone(SINGLE_VOTER_RACE, o1)
+            if v1:
+                hits += 1
+                violations.append({'class': v1[0], 'probe': 'cluster', 'input': SINGLE_VOTER_RACE, 'output': None, 'why': v1[1]})
+        run.cov['input_distribution']['directed:single-voter-noop-flush-vs-deposition'] = 8
+        run.cov['single_voter_race_hits'] = hits
+        # cluster level: unchanged (same schedules, same oracle as the exploration-level check)
+        ncases, length = THOROUGH if thorough_t else QUICK
+        cases, outs, dist = cluster.cluster_runs(run, ncases, length, False)
+        ok = 0
+        for c, o in zip(cases, outs):
+            if isinstance(o, str):
+                broken.append(('harness', 'cluster probe error', o[:300])); continue
+            ok += 1
+            for f in ORACLES:
+                v = f(c, o)
+                if v:
+                    violations.append({'class': v[0], 'probe': 'cluster', 'input': c, 'output': None, 'why': v[1]})
+        dist['terms-with-a-leader'] = sum(len(cluster.leaders_by_term(o)) for o in outs if not isinstance(o, str))
+        dist['notifications-recorded'] = sum(len(nd[5]) for o in outs if not isinstance(o, str) for nd in o[-1][0])
+        run.add_cases(ok, len({json.dumps(c) for c in cases}), [{'n': cases[0][0], 'cap': cases[0][1], 'schedule': cases[0][2][:12]}], dist,
+                      'cluster level: 3- and 5-node clusters of real Raft objects over a simulated network, seeded schedules of %d+ labels (elections with partial vote delivery, AppendEntries delivery/drop/duplication/delay, acks dropped/duplicated/delayed, client writes, heartbeats, same-term step-downs, graceful restarts, stray vote requests) plus directed scenarios; oracle: per node non-decreasing notified terms, one leader per notified term, the notified node was observed leading that term' % length)
+    except Broken as b:
+        broken.append(('harness', b.what, b.detail))
+    return flow.conclude(run, broken, violations)
 
-def replay(path): return cluster.replay_cluster(path, ORACLES)
+def replay(path):
+    r = json.load(open(path))
+    if r.get('kind') == 'counterexample' and r.get('input') and r['input'][0] == 1:
+        core.harness_build()
+        bad = None
+        for out in core.probe('cluster', [r['input']] * 8, timeout=600):
+            bad = bad or recorded_terms_monotone(r['input'], out)
+        print('VIOLATES: %s' % (bad,) if bad else 'ok'); return 1 if bad else 0
+    if r.get('kind') == 'counterexample' and str(r.get('class', '')).startswith('node-'):
+        core.harness_build()
+        out = core.probe('cluster', [r['input']], timeout=600)[0]
+        bad = notify_common.node_oracle(r['input'], out)
+        print('VIOLATES: %s' % (bad,) if bad else 'ok'); return 1 if bad else 0
+    return cluster.replay_cluster(path, ORACLES)
 
 META = {
     'title': 'Leader notifications are consistent',
-    'level': 'exploration',
-    'technique': 'exploration of real Raft clusters under seeded fault schedules with the notification oracle (no Rocq theorem yet: the notification sites are not modelled)',
-    'text': "Every value the leader-change watch of every node takes is recorded on 3-/5-node clusters of real Raft objects under seeded schedules (elections with partial vote delivery, deposed leaders hearing of successors, message faults, restarts) plus directed scenarios; the oracle checks non-decreasing terms per node, one leader per notified term, and that the notified node really led that term. No machine-checked statement is claimed for this property.",
-    'note': "Exploration only. The unchanged tree violated the property (a deposed leader announced its successor with its own old term); repaired by a fix: commit.",
+    'level': 'proof',
+    'technique': 'Rocq: notification model of one node (every notify_leader_change call site) with theorems for all event sequences (non-decreasing terms, every notification justified by own leadership or an accepted AppendEntries) + cluster corollary through election safety (C01) + refutation of the pre-fix behaviour + differential check of the model against a real Raft node + notification oracle on simulated clusters of real Raft nodes',
+    'text': "Rocq, over DE.Notify (DE.Election extended by the notifications each event emits in each role): (a) C31_notified_terms_never_decrease - along every run of one node without kill-restart the terms of the Some-notifications never decrease; (b) C31_notification_justified - every Some(l, t) is emitted at the node's current term t and either l is the node itself while it is Leader of t, or the node has just accepted an AppendEntries of term t from l (vote record (l, t, committed)); (c) C31_notifications_name_the_leader - for cluster histories (one run per node) in which every accepted AppendEntries of term t was sent by a leader of t, votes are cast once and leaders are majority-backed, all notifications of all nodes name one node per term and that node led the term (uses C01 election_safety); C31_old_behaviour_*_refuted - without the term adoption before BecomeFollower(Some leader) (code before fix 7cd2780) both (b) and (c) fail on a 3-event run. The model is replayed against one real Raft node (role, term, vote and the recorded watch values after every event, incl. noop commits through a real voter's acknowledgement), and 3-/5-node clusters of real Raft objects are run under seeded fault schedules with the notification oracle.",
+    'note': "Trusted: Coq kernel; models Election + Notify (probe-validated); the premises of the cluster corollary (C01/C02 obligations, only leaders send AppendEntries) are validated on simulated executions, not derived from a whole-cluster model. No kill-restart (C02). Learner role and ClusterConfUpdate step-down are not modelled (not driven by the probe). The unchanged tree violated the property (a deposed leader announced its successor with its own old term); repaired by a fix: commit, and the pre-fix behaviour is refuted in Rocq. Known finding (single-voter cluster only): a NoopCommitted queued behind the step-down announces (self, old term) after (new leader, new term).",
     'design_ref': 'DESIGN.md §4 C31',
 }
